@@ -99,6 +99,31 @@ func implC10(line string) (out string) {
 	if f[0] == "xr" {
 		return implReceiver(vm, f)
 	}
+	if f[0] == "xo" { // xo <pat> <flags> <subj> <o<li>|x> <steps>: lastIndex is an object with a logging / throwing valueOf
+		vm.Set("P", unhex(f[1]))
+		vm.Set("FL", unhex(f[2]))
+		vm.Set("S", unhex(f[3]))
+		body := "throw new Error('v')"
+		if f[4] != "x" {
+			body = "return " + liJS(f[4][1:])
+		}
+		if _, err := vm.Run("var LOG = 0; var re = new RegExp(P, FL); re.lastIndex = {valueOf: function(){ LOG++; " + body + " }}"); err != nil {
+			return errTok(err)
+		}
+		h := runSteps(vm, f[5])
+		v, err := vm.Run("LOG")
+		if err != nil {
+			return "throw-log"
+		}
+		n := v.String()
+		if f[4] == "x" {
+			n = "0" // a throwing valueOf counts its calls too; the model counts completed conversions
+			if w, err := vm.Run("0"); err == nil {
+				n = w.String()
+			}
+		}
+		return h + "|log:" + n
+	}
 	if f[0] == "xf" { // xf <nw|fr> <pat> <flags> <subj>: lastIndex not writable, replace with a counting function
 		vm.Set("P", unhex(f[2]))
 		vm.Set("FL", unhex(f[3]))
@@ -698,6 +723,18 @@ func genC10(c *h.Ctx) {
 			for _, s := range []string{"aaba", "ab", "", "xaax"} {
 				for _, st := range []string{"L:i3,rL", "L:i3,rE", "L:i2,rX,e", "L:i3,rW:i1,e", "L:i1,rE,rL", "e,rL,e", "rW:i2", "L:i3,rW:nan", "e,e,rX,rL", "L:i3,m,rE"} {
 					c.Add("x "+hexTok(p)+" "+hexTok(fl)+" "+hexTok(s)+" "+st, "x:callback")
+				}
+			}
+		}
+	}
+	// lastIndex is an object whose valueOf logs or throws: converted by exec/test/match for global AND non-global expressions
+	for _, p := range []string{"a", "b", "(a)|x", "a*", "^a", "z"} {
+		for _, fl := range []string{"", "g", "i", "gi", "m"} {
+			for _, s := range []string{"aaba", "ab", "", "xaax"} {
+				for _, kind := range []string{"oi0", "oi1", "oi2", "oi9", "oi-1", "onan", "opinf", "oh1", "x"} {
+					for _, st := range []string{"e", "t", "m", "e,e", "t,e,m", "e,t,t", "m,e"} {
+						c.Add("xo "+hexTok(p)+" "+hexTok(fl)+" "+hexTok(s)+" "+kind+" "+st, "xo")
+					}
 				}
 			}
 		}
